@@ -111,7 +111,8 @@ impl SimDisk {
     }
 
     fn real_path(k: &str) -> Option<std::path::PathBuf> {
-        let p = Path::new(k);
+        let os = crate::view::unescape(k);
+        let p = Path::new(&os);
         if k.is_empty() || p.is_absolute() || p.components().any(|c| !matches!(c, std::path::Component::Normal(_))) {
             return None;
         }
@@ -158,7 +159,8 @@ impl SimDisk {
             for e in rd.flatten() {
                 if e.file_type().is_ok_and(|t| t.is_file()) {
                     if let Ok(b) = std::fs::read(e.path()) {
-                        real.insert(e.file_name().to_string_lossy().into_owned(), b);
+                        use std::os::unix::ffi::OsStrExt;
+                        real.insert(crate::view::escape(e.file_name().as_bytes()), b);
                     }
                 }
             }
@@ -290,14 +292,16 @@ impl SimDisk {
     }
 }
 
-/// The disk's name of a path: relative to the mirror directory, without `./`.
+/// The disk's name of a path: relative to the mirror directory, without `./`, bytes that are
+/// not UTF-8 escaped (view::escape).
 fn key(p: &Path) -> String {
+    use std::os::unix::ffi::OsStrExt;
     let p = match crate::mirror::root() {
         Some(r) => p.strip_prefix(r).unwrap_or(p),
         None => p,
     };
     let p = p.strip_prefix(".").unwrap_or(p);
-    p.to_string_lossy().into_owned()
+    crate::view::escape(p.as_os_str().as_bytes())
 }
 
 fn err(code: i32) -> io::Error {
